@@ -99,6 +99,7 @@ const (
 	PolDuplicate = 4 // closure with every file twice in one response
 	PolWrongFile = 5 // NON-conformant: answers a symbol request with some other file
 	PolMissDep   = 6 // NON-conformant: never provides one dependency (NotFound error response)
+	PolDirect    = 7 // requested file + its direct imports only: later rounds re-send files the client already has
 )
 
 type Server struct {
@@ -145,6 +146,13 @@ func (s *Server) answer(f File, sent map[string]bool, bySymbol bool) [][]byte {
 	switch s.Policy {
 	case PolOnlyFile, PolMissDep:
 		files = []File{f}
+	case PolDirect:
+		files = []File{f}
+		for _, d := range f.Deps {
+			if df, ok := s.Files[d]; ok {
+				files = append(files, df)
+			}
+		}
 	case PolGrpcGo:
 		var all []File
 		s.closure(f, map[string]bool{}, &all)
